@@ -584,44 +584,6 @@ fn run_b(rep: &mut Report, a: &Args, rng: &mut Rng, w: &mut World) {
 			let _ = w.wallets[i].refresh();
 		}
 	}
-	// a source account that does not exist owns no outputs: a payment from it cannot be built
-	for mode in 0..4u64 {
-		let wal = &w.wallets[0];
-		let other = &w.wallets[1];
-		let _ = wal.set_account("default");
-		let _ = wal.refresh();
-		let before = wal.db_dump(&scratch);
-		let args = InitTxArgs { amount: 1_000_000_000 + rng.below(1_000_000_000), minimum_confirmations: 1, num_change_outputs: 1, selection_strategy_is_use_all: false, estimate_only: Some(mode == 1), late_lock: Some(mode == 2), src_acct_name: Some("acct".to_string()), ..Default::default() };
-		let mode_name = ["send", "estimate_only", "late_lock", "pay_invoice"][mode as usize];
-		let case = json!({"workload":"B", "scenario": "src_acct_name names an account that does not exist", "mode": mode_name});
-		rep.eval();
-		let r = catch(|| -> Result<Uuid, libwallet::Error> {
-			if mode == 3 {
-				let inv = other.issue_invoice(IssueInvoiceTxArgs { amount: args.amount, ..Default::default() })?;
-				let id = inv.id;
-				let mut a2 = args.clone();
-				a2.estimate_only = None;
-				a2.late_lock = None;
-				let r = wal.process_invoice(&inv, a2).map(|_| id);
-				let _ = other.cancel(None, Some(id));
-				r
-			} else {
-				wal.init_send(args.clone()).map(|s| s.id)
-			}
-		});
-		match r {
-			Err((loc, msg)) => rep.violation(&format!("C01|panic|api|{}|unknown-source-account", loc), &msg, case),
-			Ok(Err(e)) => {
-				rep.count("B:refused:unknown-source-account");
-				rep.distinct(&("B-unknown-src", mode, err_kind(&e)));
-			}
-			Ok(Ok(id)) => {
-				let after = wal.db_dump(&scratch);
-				rep.violation(&format!("C01|payment-from-a-source-account-that-does-not-exist-was-built|{}", mode_name), &format!("{} with src_acct_name naming no account of the wallet returned Ok (built from the active account's outputs); persisted: {:?}", mode_name, diff_reserving(&before, &after)), case);
-				let _ = wal.cancel(None, Some(id));
-			}
-		}
-	}
 	// so many change outputs that the minimum fee exceeds what a kernel's fee field can hold (2^40 - 1), in a wallet
 	// that could afford it: estimate and late-locked initiation (no keys are derived for either) must answer with
 	// an error, not crash
